@@ -1,5 +1,13 @@
 // ---- env/codec_env.rs: bytes::BytesMut, tokio_util codec traits, slice iteration (assumed) -------
-pub mod io { pub struct Error { pub p: u8 } }
+pub mod io {
+    pub struct Error { pub p: u8 }
+    pub enum ErrorKind { InvalidData, Other }
+    impl Error {
+        // std: io::Error::new never fails; what the error says plays no role in any contract
+        #[verifier::external_body]
+        pub fn new(kind: ErrorKind, msg: &str) -> (r: Error) { unimplemented!() }
+    }
+}
 impl ::std::convert::From<io::Error> for AnyErr { #[verifier::external_body] fn from(e: io::Error) -> AnyErr { unimplemented!() } }
 impl vstd::std_specs::convert::FromSpecImpl<io::Error> for AnyErr {
     open spec fn obeys_from_spec() -> bool { false }
@@ -7,6 +15,13 @@ impl vstd::std_specs::convert::FromSpecImpl<io::Error> for AnyErr {
 }
 pub type Error = AnyErr;
 pub uninterp spec fn utf8_spec(b: Seq<u8>) -> Option<Seq<char>>;
+#[verifier::external_type_specification]
+#[verifier::external_body]
+pub struct ExUtf8Error(::core::str::Utf8Error);
+// std: from_utf8 succeeds exactly on the byte strings that are UTF-8, with the text they encode
+// (utf8_spec is uninterpreted: which strings those are plays no role). ASSUMED.
+pub assume_specification<'a>[ str::from_utf8 ](b: &'a [u8]) -> (r: ::std::result::Result<&'a str, ::core::str::Utf8Error>)
+    ensures match r { Ok(s) => utf8_spec(b@) == Some(s@), Err(_) => utf8_spec(b@) is None };
 pub uninterp spec fn str_bytes(s: Seq<char>) -> Seq<u8>;
 
 pub struct BytesMut { pub data: Vec<u8> }
